@@ -70,9 +70,11 @@ struct CbState {
     int ninst = 0;
     Seen seen;
     void add(const void *p) { ctor++; if (ninst < 8) inst[ninst++] = p; }
+    const void *dead[8];     // where destroyed instances were: a pending CAS may still expect such a node
+    int ndead = 0;
     void del(const void *p) {
         dtor++;
-        for (int i = 0; i < ninst; i++) if (inst[i] == p) { inst[i] = inst[--ninst]; return; }
+        for (int i = 0; i < ninst; i++) if (inst[i] == p) { inst[i] = inst[--ninst]; if (ndead < 8) dead[ndead++] = p; return; }
         dtor += 1000;
     }
     int live() const { return ctor - dtor; }
@@ -116,6 +118,13 @@ struct World {
         for (auto &kv : cbs) {
             for (int i = 0; i < kv.second.ninst; i++) {
                 const char *a = static_cast<const char *>(kv.second.inst[i]);
+                if (a >= p && a < p + 16) return kv.first;
+            }
+        }
+        // stale pointer to a node that deleted itself (compared by address only, never dereferenced by the library)
+        for (auto &kv : cbs) {
+            for (int i = 0; i < kv.second.ndead; i++) {
+                const char *a = static_cast<const char *>(kv.second.dead[i]);
                 if (a >= p && a < p + 16) return kv.first;
             }
         }
